@@ -80,6 +80,7 @@ type Replay struct {
 	Tier      string            `json:"tier"`
 	Corpus    any               `json:"corpus,omitempty"`
 	Cell      *Cell             `json:"cell"`
+	Partner   *Cell             `json:"partner,omitempty"`
 	Tape      []int             `json:"tape"`
 	ClockDays int               `json:"clock_days"`
 	Writer    *WriterPlan       `json:"writer,omitempty"`
@@ -226,6 +227,14 @@ func workerMain(args []string) {
 	dump := fl.String("dump", "", "write canonical outputs here (cross-process comparison)")
 	fl.Parse(args)
 	cells := loadCells(*cellsFile)
+	for i, c := range cells {
+		for _, j := range []int{i + 1, i - 1} {
+			if j >= 0 && j < len(cells) && cells[j].Pkg == c.Pkg {
+				partnerOf[c.ID] = cells[j]
+				break
+			}
+		}
+	}
 	start := time.Now()
 	res := &Result{Prop: *prop, Sites: map[string]int{}, Unowned: map[string]int{}, Faults: map[string]int{}}
 	sigs := map[uint64]struct{}{}
@@ -284,6 +293,10 @@ func fnvs(s string) uint64 {
 	}
 	return h
 }
+
+// partnerOf: another cell of the same package (same directory), so that two
+// different files are generated at the same time.
+var partnerOf = map[string]*Cell{}
 
 func checkC14(c *Cell, seed uint64, orders int, tier, out string, res *Result, sigs map[uint64]struct{}, dumped map[string]string) {
 	simhook.ResetSites()
@@ -348,16 +361,20 @@ func checkC14(c *Cell, seed uint64, orders int, tier, out string, res *Result, s
 	res.Generations++
 	for k := 0; k < 2 && k < orders; k++ {
 		tp := tape.New(tape.Mix(base, uint64(5000+k)))
-		a, b := concurrentPair(c, tp)
+		d := partnerOf[c.ID]
+		if d == nil {
+			d = c
+		}
+		refD := ref
+		if d != c {
+			refD = generate(d, nil, 0)
+		}
+		a, b := concurrentPair(c, d, tp)
 		res.Generations += 2
 		res.Nontrivial++
 		sigs[hashInts(fnvs(c.ID)^77, tp.Out)] = struct{}{}
-		if !bytes.Equal(a, ref) || !bytes.Equal(b, ref) {
-			got := a
-			if bytes.Equal(a, ref) {
-				got = b
-			}
-			reportConc(c, seed, tier, out, res, ref, got, tp.Out)
+		if !bytes.Equal(a, ref) || !bytes.Equal(b, refD) {
+			reportConc(c, d, seed, tier, out, res, ref, refD, tp.Out)
 			break
 		}
 	}
@@ -412,12 +429,12 @@ func (w *yieldingWriter) Write(p []byte) (int, error) {
 	return len(p), nil
 }
 
-// concurrentPair generates c twice at the same time in two simulated tasks.
-func concurrentPair(c *Cell, tp *tape.Tape) (a, b []byte) {
+// concurrentPair generates c and d at the same time in two simulated tasks.
+func concurrentPair(c, d *Cell, tp *tape.Tape) (a, b []byte) {
 	simhook.Install(nil)
 	sim := simrt.New(tp, simrt.Strategy{})
 	sim.MaxEvents = 2000000
-	run := func(dst *[]byte) func() {
+	run := func(c *Cell, dst *[]byte) func() {
 		return func() {
 			defer func() {
 				if r := recover(); r != nil {
@@ -438,8 +455,8 @@ func concurrentPair(c *Cell, tp *tape.Tape) (a, b []byte) {
 			*dst = w.buf.Bytes()
 		}
 	}
-	sim.Go("gen-a", run(&a))
-	sim.Go("gen-b", run(&b))
+	sim.Go("gen-a", run(c, &a))
+	sim.Go("gen-b", run(d, &b))
 	if !sim.Run() {
 		return []byte("STUCK"), []byte("STUCK")
 	}
@@ -469,17 +486,17 @@ func inSim(tp *tape.Tape, f func() []byte) (out []byte) {
 	return out
 }
 
-func reportConc(c *Cell, seed uint64, tier, out string, res *Result, ref, got []byte, tp []int) {
+func reportConc(c, d *Cell, seed uint64, tier, out string, res *Result, ref, refD []byte, tp []int) {
 	class := "concurrent-instances-interfere"
 	min, execs := minimiseTape(tp, func(t []int) bool {
-		a, b := concurrentPair(c, tape.Replay(t))
-		return !bytes.Equal(a, ref) || !bytes.Equal(b, ref)
+		a, b := concurrentPair(c, d, tape.Replay(t))
+		return !bytes.Equal(a, ref) || !bytes.Equal(b, refD)
 	})
-	a, b := concurrentPair(c, tape.Replay(min))
+	a, b := concurrentPair(c, d, tape.Replay(min))
 	if bytes.Equal(a, ref) {
-		a = b
+		a, ref = b, refD
 	}
-	rp := &Replay{Property: "C14", Class: class, Signature: class, Engine: "gensim", VerifSeed: seed, Tier: tier, Cell: c, Tape: min, Shrink: execs, OrigTape: len(tp),
+	rp := &Replay{Property: "C14", Class: class, Signature: class, Engine: "gensim", VerifSeed: seed, Tier: tier, Cell: c, Partner: d, Tape: min, Shrink: execs, OrigTape: len(tp),
 		Findings: []Finding{{Prop: "C14", Class: class, Detail: fmt.Sprintf("%s: two generator instances running at the same time: output differs from the solo generation: %s", c, firstDiff(ref, a))}},
 		Trace:    []string{"solo: " + summary(ref), fmt.Sprintf("concurrent pair under schedule %v: %s", min, summary(a)), "first difference: " + firstDiff(ref, a)}}
 	rp.TraceHash = fmt.Sprintf("%016x", fnvs(string(ref))^fnvs(string(a)))
@@ -772,10 +789,15 @@ func replayMain(args []string) {
 		case "depends-on-other-generator-instances":
 			got = interleaved(rp.Cell, nil)
 		case "concurrent-instances-interfere":
-			a, b := concurrentPair(rp.Cell, tape.Replay(rp.Tape))
+			d := rp.Partner
+			if d == nil {
+				d = rp.Cell
+			}
+			d.Dir = rp.Cell.Dir
+			a, b := concurrentPair(rp.Cell, d, tape.Replay(rp.Tape))
 			got = a
 			if bytes.Equal(a, ref) {
-				got = b
+				ref, got = generate(d, nil, 0), b
 			}
 		}
 		out.Trace = []string{"canonical: " + summary(ref), "replayed order: " + summary(got), "first difference: " + firstDiff(ref, got)}
